@@ -83,8 +83,7 @@ def check_moves(moves, free, width):
     for (s, d), v in zip(moves, user.operands):
         if v.type.register_name.data != d:
             return {"moves": moves, "free": free, "why": f"result for move {s}->{d} lives in register {v.type.register_name.data}", "key": "C20/result-register"}
-    long_int_cycle_without_scratch = (any(len(c) >= 3 for c in _cycles(moves, "i")) and not any(not f.startswith("f") for f in (free or []))
-                                      and not _has_leaf_scratch(moves, "i"))
+    long_int_cycle_without_scratch = any(len(c) >= 3 for c in _cycles(moves, "i")) and not any(not f.startswith("f") for f in (free or []))
     for s, d in moves:
         if regs[d] != init[s]:
             return {"moves": moves, "free": free, "width": width, "inputs": {"int_cycle_of_3_or_more_without_scratch": long_int_cycle_without_scratch, "failing_destination_is_a_self_move": s == d}, "emitted": [o.name + str([x.type.register_name.data for x in o.operands]) + "->" +
